@@ -159,6 +159,11 @@ def run(ctx):
     from .c12 import refcount_table
     refcount_table(ctx, program, "R09.7")
 
+    ctx.rule("R09.19", "service_register and service_remove agree on the key of a service (Home Assistant lower-cases names): a declaration under another spelling neither "
+             "removes a service that is still declared nor leaves an owner record behind", floor=6)
+    from .c12 import case_table
+    case_table(ctx, program, "R09.19")
+
     ctx.rule("R09.8", "legacy @service: no exit of trigger_init leaves a service registered that the context's stop() cannot reach", floor=2)
     from .c12 import legacy_service_reachability
     legacy_service_reachability(ctx, program, "R09.8")
